@@ -210,5 +210,9 @@ def run_history(hid, rng, length, *, gamma=None, nn=6, cls=xgi.Hypergraph, call=
         seq += 1
         if postanom:
             break  # the object can no longer be projected faithfully
+        # the abstract id universe holds the int ids 0..99: a history ends before its counter can leave it
+        # (a bulk call on six nodes creates at most 57 simplices, 4 edges otherwise)
+        if post.get("uid", 0) > (40 if cls is xgi.SimplicialComplex else 90):
+            break
         pre, preanom = post, postanom
     return recs
